@@ -93,7 +93,7 @@ Fixpoint find_ext (part : str) : option str :=
   | [] => None
   | c :: r => if Ascii.eqb c dotc then
                 match span ext_char r with
-                | (_ :: _ as e, _) => Some e
+                | ((_ :: _) as e, _) => Some e
                 | _ => find_ext r
                 end
               else find_ext r
